@@ -3,6 +3,7 @@
 -/
 import Gmars.Model.Load
 import Gmars.Spec.LoadText
+import Gmars.Proofs.RoundTrip
 
 namespace Gmars.Props.C09
 open Gmars
@@ -23,5 +24,47 @@ theorem op88_roundtrip (op : Op)
     (ho : op ∈ [Op.dat, .mov, .add, .sub, .jmp, .jmz, .jmn, .djn, .cmp, .slt, .spl]) :
     getOpCode88 op.name.toList = some op := by
   cases op <;> simp at ho <;> decide
+
+/-- `load_print` — for every well-formed warrior (any length ≥ 1, every instruction form legal
+    in the dialect, fields in [0, M), every entry point), in both dialects and for every core
+    size 0 < M < 2^63: writing it in the canonical load-file layout and reading it back with the
+    load-file reader reproduces exactly the same instructions and entry point. (The entry point
+    must be below 2^31: the reader parses the ORG/END argument as a 32-bit integer, see
+    `load_print_large_start`; such a warrior has over two thousand million instructions.) -/
+theorem load_print (cfg : Config) (code : List Instr) (start : Nat)
+    (hM0 : 0 < cfg.coreSize.toNat) (hM : cfg.coreSize.toNat < 2 ^ 63)
+    (hf : ∀ i ∈ code, i.a.toNat < cfg.coreSize.toNat ∧ i.b.toNat < cfg.coreSize.toNat)
+    (hstart : start < code.length)
+    (hl : (cfg.mode == .icws88) = true → ∀ i ∈ code, Spec.Legal88 i = true)
+    (hs31 : start < 2 ^ 31) :
+    parseLoadFile cfg (Spec.printLoad (cfg.mode == .icws88) code start) =
+      .ok (some { name := "Unknown", author := "Anonymous", strategy := "",
+                  code := code.toArray, start := (start : Int) }) :=
+  RoundTrip.load_print cfg code start hM0 hM hf hstart hl hs31
+
+/-- `load_print` under layout variation: the same result for every layout `printLoadG` with
+    arbitrary runs of blanks / tabs / CR before the mnemonic, between all fields, around the comma
+    and at the end of every line (only the gaps mnemonic–mode and mode–number must be non-empty) -/
+theorem load_print_any_blanks (cfg : Config) (d : RoundTrip.DirGaps) (lines : List (RoundTrip.Gaps × Instr))
+    (start : Nat) (hd : d.ok) (hM : cfg.coreSize.toNat < 2 ^ 63)
+    (hl : ∀ p ∈ lines, RoundTrip.LineOK cfg.coreSize (cfg.mode == .icws88) p)
+    (hstart : start < lines.length) (hs : start < 2 ^ 31) :
+    parseLoadFile cfg (RoundTrip.printLoadG (cfg.mode == .icws88) d lines start) =
+      .ok (some { name := "Unknown", author := "Anonymous", strategy := "",
+                  code := (lines.map (·.2)).toArray, start := (start : Int) }) :=
+  RoundTrip.load_printG cfg d lines start hd hM hl hstart hs
+
+/-- the 2^31 bound of `load_print` is tight for the '94 reader -/
+theorem load_print_large_start (cfg : Config) (code : List Instr) (start : Nat)
+    (h94 : (cfg.mode == .icws88) = false) (hs : 2 ^ 31 ≤ start) :
+    parseLoadFile cfg (Spec.printLoad false code start) = .ok none :=
+  RoundTrip.load_print_large_start cfg code start h94 hs
+
+/-
+  Still open (tie only): the assembler half `asm_print` (CompileWarrior on the same text) and the
+  remaining layout perturbations of the property (letter case, comment and blank lines, metadata
+  comments, missing final newline) — covered on every run by the `load` correspondence domain,
+  which feeds each generated text to both the loader and the assembler.
+-/
 
 end Gmars.Props.C09
